@@ -6,6 +6,7 @@ import DafRel.Lemmas.ConformSound
 
 namespace DafRel
 
+
 /-- `relation.transferred_to(dest)` when the source or the destination is a SQL engine (nothing to strip
 by `Transfer.simplify`): same rows and columns, requested engine, well-formed. -/
 theorem transferTo_sql_sound (σ : Leaves) (st : Store) (fuel : Nat) (dest : Engine) (t : Rel)
@@ -13,7 +14,7 @@ theorem transferTo_sql_sound (σ : Leaves) (st : Store) (fuel : Nat) (dest : Eng
     (hs : transferSimplify dest t = none) (h : transferTo st fuel dest t = .ok res) :
     sem σ (res.get t) = sem σ t ∧ (∀ c, c ∈ (res.get t).columns ↔ c ∈ t.columns) ∧
       (res.get t).WF ∧ (res.get t).Truthful σ ∧ (t.engine ≠ dest → (res.get t).engine = dest) ∧
-      (t.engine = dest → (res.get t).engine = dest) ∧ (dest.kind = .sql → Good σ (res.get t)) := by
+      (t.engine = dest → (res.get t).engine = dest) ∧ (dest.kind = .sql → Good NodeInv.triv σ (res.get t)) := by
   cases fuel with
   | zero => rw [transferTo] at h; cases h
   | succ fuel =>
@@ -76,7 +77,7 @@ theorem transferTo_sql_sound (σ : Leaves) (st : Store) (fuel : Nat) (dest : Eng
           | error e => simp [hc] at h
           | ok c2 =>
             simp only [hc] at h
-            have gT : Good σ (Rel.transfer 0 dest src) := Good.atom _ rfl s3 s4 hk
+            have gT : Good NodeInv.triv σ (Rel.transfer 0 dest src) := Good.atom _ rfl s3 s4 hk trivial
             obtain ⟨gC, C⟩ := (treeBuild_sound σ st fuel).conform _ c2 gT hc
             have hres : res.get t = c2.get (Rel.transfer 0 dest src) := by
               cases c2 <;> (simp only at h; injection h with h; subst h; rfl)
